@@ -41,6 +41,11 @@ Theorem C16_clone_writes : forall o s, match o with
   end.
 Proof. exact clone_write_recorded. Qed.
 
+(* outside the fragment (known finding C16-o): extend / += given a lazy iterable that reads the field *)
+Theorem C16_refuted_extend_lazy :
+  items (extend_copy_first_new [1; 1] (init KList [])) = [1; 1] /\ extend_lazy_new [1; 1] [] = [1].
+Proof. exact refuted_extend_lazy. Qed.
+
 (* non-vacuity: the three formerly erasing writes, and an assignment with repetitions *)
 Example C16_nonvacuous :
   items (snd (Container.run KList [Assign [2; 1; 0; 1]; AssignSelf; IAug [3]] (init KList []))) = [2; 1; 0; 1; 3] /\
@@ -53,3 +58,4 @@ Print Assumptions C16_constructor.
 Print Assumptions C16_inferences.
 Print Assumptions C16_constructor_copy.
 Print Assumptions C16_clone_writes.
+Print Assumptions C16_refuted_extend_lazy.
